@@ -50,15 +50,3 @@ def _revkey(f):
     return f.kind == "oracle" and f.message.startswith("walk-reverse-key")
 
 
-@matcher("C15-both-oneof-members")
-def _oneof(f):
-    """a fee entry carrying both members of the fee_type oneof (basis_points and amount): gogoproto jsonpb applies the
-    members in Go map iteration order, the last one visited wins"""
-    return f.kind == "oracle" and (f.message.startswith("impure-oneof") or f.message.startswith("nondeterministic-oneof"))
-
-
-@matcher("C19-unknown-field-scapegoat")
-def _scapegoat(f):
-    """payload JSON with two or more unknown fields: gogoproto jsonpb names an arbitrary one ("Pick any field to be the
-    scapegoat") and the orbiter embeds err.Error() verbatim in the acknowledgement, which IBC commits"""
-    return f.kind == "oracle" and f.message.startswith("nondeterministic-unknown-field-text:")
